@@ -451,10 +451,20 @@ func zs(s string) string {
 	return vlib.ZBig(b)
 }
 
+// coqStr renders a Go string as bytes: a string literal when printable ASCII.
+func coqStr(s string) string {
+	for i := 0; i < len(s); i++ {
+		if s[i] < 0x20 || s[i] > 0x7e {
+			return vlib.Bytes(s)
+		}
+	}
+	return "(bs \"" + strings.ReplaceAll(s, "\"", "\"\"") + "\")"
+}
+
 func coqEvent(e Event) string {
 	switch e.K {
 	case "strp":
-		return vlib.App("EStrptime", vlib.Bytes(e.Layout), vlib.Bytes(e.Value))
+		return vlib.App("EStrptime", coqStr(e.Layout), coqStr(e.Value))
 	case "sett":
 		return vlib.App("ESettime", vlib.Z(e.N))
 	case "ts":
@@ -476,21 +486,21 @@ func coqEvent(e Event) string {
 func coqWorld(cs []Cell, errs int64) string {
 	xs := make([]string, len(cs))
 	for i, c := range cs {
-		xs[i] = fmt.Sprintf("(%d, {| d_val := %s; d_time := %s |})", i, vlib.Z(c.Val), vlib.Z(c.Time))
+		xs[i] = fmt.Sprintf("(%d, Build_cell %s %s)", i, vlib.Z(c.Val), vlib.Z(c.Time))
 	}
-	return fmt.Sprintf("{| w_store := %s; w_errs := %d |}", vlib.List(xs), errs)
+	return fmt.Sprintf("(Build_world %s %d)", vlib.List(xs), errs)
 }
 
 // Coq renders the case as a TRun term of Corr/TimeRun.v.
 func (c Case) Coq(id uint64) string {
-	cfg := fmt.Sprintf("{| c_loc := %d; c_useyear := %s |}", c.Zone, vlib.Bool(c.UseYear))
+	cfg := fmt.Sprintf("(Build_config %d %s)", c.Zone, vlib.Bool(c.UseYear))
 	rows := make([]string, len(c.Table))
 	for i, r := range c.Table {
 		res := "None"
 		if r.OK {
 			res = fmt.Sprintf("(Some (%s, %s, %s))", zs(r.Ns), vlib.Z(int64(r.Year)), zs(r.AdjNs))
 		}
-		rows[i] = fmt.Sprintf("(%s, %s, %s)", vlib.Bytes(r.Layout), vlib.Bytes(r.Value), res)
+		rows[i] = fmt.Sprintf("(%s, %s, %s)", coqStr(r.Layout), coqStr(r.Value), res)
 	}
 	ls := make([]string, len(c.Events))
 	for i, evs := range c.Events {
@@ -498,7 +508,7 @@ func (c Case) Coq(id uint64) string {
 		for j, e := range evs {
 			es[j] = coqEvent(e)
 		}
-		ls[i] = fmt.Sprintf("{| l_now := %s; l_year := %s; l_evs := %s |}",
+		ls[i] = fmt.Sprintf("(Build_line %s %s %s)",
 			vlib.Z(c.NowS*1e9), vlib.Z(int64(c.Year)), vlib.List(es))
 	}
 	obs := make([]string, len(c.Obs))
@@ -512,7 +522,7 @@ func (c Case) Coq(id uint64) string {
 
 type Weights struct {
 	Strp, Strpc, Sett, Settc, Gts, Inc, Conv, Stop int
-	TwoLayouts                                      int // percent: a statement parses $1 under two layouts
+	TwoLayouts                                     int // percent: a statement parses $1 under two layouts
 }
 
 var gauges = []string{"g0", "g1", "g2", "g3"}
@@ -650,4 +660,135 @@ func LinePool(r *vlib.Rand, p Prog) []string {
 	}
 	pool = append(pool, "Z nothing matches")
 	return pool
+}
+
+// ---- the property C07 evaluated directly with the time library ----
+
+// ExpCell is what the property dictates for one metric after a line; a field
+// is either a literal, a wall-clock reading (Now), or not decided here (Any).
+type ExpCell struct {
+	Val     int64
+	ValNow  bool
+	ValAny  bool
+	Time    int64
+	TimeNow bool
+	TimeAny bool
+	Why     string // the last time-setting builtin before the write: strptime | settime | none
+}
+
+var reserved = time.Time{} // the instant that means "unset"
+
+// yearAdjustIndependent computes "zero year replaced by the current year" without
+// AddDate: the value is parsed again with the year written in front of it.
+// ok=false when that is not expressible (layout with a year field, or a date
+// that does not exist in the current year).
+func yearAdjustIndependent(loc *time.Location, layout, value string, year int) (time.Time, bool) {
+	if strings.Contains(layout, "2006") || strings.Contains(layout, "06") {
+		return time.Time{}, false
+	}
+	tm, err := ParseAs(loc, "2006 "+layout, fmt.Sprintf("%04d ", year)+value)
+	if err != nil {
+		return time.Time{}, false
+	}
+	return tm, true
+}
+
+// Expect walks the events of one line and returns the metrics and the number
+// of runtime errors the property statement dictates, given the metrics before.
+func Expect(loc *time.Location, useYear bool, year int, evs []Event, before []Cell) (after []ExpCell, errs int64, undecided int) {
+	after = make([]ExpCell, len(before))
+	for i, c := range before {
+		after[i] = ExpCell{Val: c.Val, Time: c.Time}
+	}
+	set := false    // register set on this line
+	anyReg := false // register value not decided by this oracle
+	var reg time.Time
+	why := "none"
+	type sv struct {
+		v        int64
+		now, any bool
+	}
+	var stack []sv
+	stamp := func(c *ExpCell) {
+		c.Why = why
+		c.TimeNow, c.TimeAny = false, false
+		switch {
+		case anyReg:
+			c.TimeAny = true
+			undecided++
+		case !set:
+			c.TimeNow = true
+		case reg.Equal(reserved):
+			// the instant reserved to mean "unset": not decided by the statement
+			c.TimeAny = true
+			undecided++
+		default:
+			ns := bigNs(reg)
+			if !ns.IsInt64() {
+				c.TimeAny = true // a datum time is int64 ns: the instant cannot be carried
+				undecided++
+			} else {
+				c.Time = ns.Int64()
+			}
+		}
+	}
+	for _, e := range evs {
+		switch e.K {
+		case "strp":
+			tm, err := ParseAs(loc, e.Layout, e.Value)
+			if err != nil {
+				return after, errs + 1, undecided
+			}
+			set, anyReg, why = true, false, "strptime"
+			reg = tm
+			if useYear && tm.Year() == 0 {
+				adj, ok := yearAdjustIndependent(loc, e.Layout, e.Value, year)
+				if ok {
+					reg = adj
+				} else {
+					anyReg = true
+				}
+			}
+		case "sett":
+			set, anyReg, why = true, false, "settime"
+			reg = time.Unix(e.N, 0)
+		case "ts":
+			switch {
+			case anyReg:
+				stack = append(stack, sv{any: true})
+				undecided++
+			case !set:
+				stack = append(stack, sv{now: true})
+			case reg.Equal(reserved):
+				stack = append(stack, sv{any: true})
+				undecided++
+			default:
+				stack = append(stack, sv{v: reg.Unix()})
+			}
+		case "push":
+			stack = append(stack, sv{v: e.N})
+		case "set":
+			x := stack[len(stack)-1]
+			stack = stack[:len(stack)-1]
+			c := &after[e.M]
+			c.Val, c.ValNow, c.ValAny = x.v, x.now, x.any
+			stamp(c)
+		case "inc":
+			c := &after[e.M]
+			c.Val++ // counters of the generated programs stay far from overflow
+			stamp(c)
+		case "fail":
+			return after, errs + 1, undecided
+		case "stop":
+			return after, errs, undecided
+		}
+	}
+	return after, errs, undecided
+}
+
+// Matches reports whether an observed cell is what the property dictates.
+func (b Bracket) Matches(x ExpCell, got Cell) bool {
+	okV := x.ValAny || (x.ValNow && b.InS(got.Val)) || (!x.ValNow && got.Val == x.Val)
+	okT := x.TimeAny || (x.TimeNow && b.InNs(got.Time)) || (!x.TimeNow && got.Time == x.Time)
+	return okV && okT
 }
